@@ -34,14 +34,16 @@ claimed = {
    text=("Every per-format decoder (SOP2, SOP1, SOPC, SOPK, SOPP, VOPC, VOP1, VOP2, VOP3a, VOP3b, SMEM, FLAT, DS) and the operand decoder getOperand, "
          "plus the bit-field helpers, are under contract for all 32/64-bit instruction words: no panic, success exactly on the stated well-formedness conditions, "
          "ByteSize in {4,8} and never beyond the bytes read, every decoded field equal to the bit-field the GCN3 encoding prescribes, and only the new Inst written. "
-         "The top-level Decode/matchFormat/lookUp layer and the inverse-to-encoding lemma are not yet under contract."),
-   note=(TB + "Assumed: Disassembler.decodeTables well-formedness is stated as a precondition of the format decoders (established by initializeDecodeTable, not yet proved); "
+         "The top-level layer is under contract as well: matchFormat returns the first format of the (mask-sorted) list whose encoding matches the word, lookUp the table entry of the opcode field of that format, and Decode never panics on any buffer (short buffers are reported as errors), dispatches to the decoder of the matched format and returns its result; decodeFLAT also fixes the addressing-mode rule (one address register exactly in scalar-base mode, per architecture). "
+         "The inverse-to-encoding lemma (the repository has no encoder) and read-prefix independence are not stated."),
+   note=(TB + "Assumed: Disassembler.decodeTables well-formedness is stated as a precondition of Decode; its inductive step is proved (addInstType keeps every entry under its own opcode in the table of its own, decodable, format), the base case and the 1038 registrations of initializeDecodeTable are not; "
          "VOP3/SDWA/DPP modifier fields are checked field by field, not against an encoder (the repository has none). Six genuine defects were repaired (fix: commits, known_findings.txt)."),
    design="5 (C04)", technique="deductive verification: WP-style VC generation over go/ssa + SMT (bit-vector field contracts per format decoder)"),
  "C07": dict(
    text=("ReadOperand/WriteOperand/ReadReg/WriteReg/ReadOperandBytes/WriteOperandBytes of the emulation wavefront and the timing wavefront are verified against one abstract "
          "register model (SGPR/VGPR cell arrays, SCC, VCC, EXEC, M0 with lo/hi halves): for every register kind, width, lane and value a write updates exactly the named cells, "
-         "a read returns them, nothing else changes, and both modes implement the same view. SchedulerImpl.resetRegisterValue and cross-wavefront separation are not yet under contract."),
+         "a read returns them, nothing else changes, and both modes implement the same view. SchedulerImpl.resetRegisterValue clears exactly the scalar and vector registers of the finishing wavefront's own allocation and leaves every other cell of the register files unchanged, and padTo8 zero-extends short reads. "
+         "Cross-wavefront separation as a whole-history statement (allocations of live wavefronts never overlap) rests on the C09 reservation contracts and is not mechanised end to end."),
    note=(TB + "Assumed: register files are indexed within the per-wavefront allocation (offset preconditions taken from the dispatcher, proved under C09 when claimed); "
          "the timing register file component is modelled by the cell arrays its Read/Write contract states. One genuine defect repaired (VCCHI write mask)."),
    design="5 (C07)", technique="deductive verification: WP-style VC generation over go/ssa + SMT (two implementations against one abstract view)"),
@@ -64,7 +66,7 @@ claimed = {
          "amd_kernel_code_t and AMDHSA kernel-descriptor layouts for all byte strings: every loaded field equals the little-endian field at its offset, the 256-byte header is "
          "stripped exactly when the five-field signature holds, and the V5 rewrites are exactly the documented ones. overrideRegisterCountsFromSymbols is proved to depend only on "
          "this kernel's own .numbered_sgpr/.num_vgpr symbols (max of the rounded values, any symbol order), and findV5KernelDescriptor to return the parsed descriptor at the unique "
-         "<kernel>.kd symbol's section-relative offset for any section address and symbol order. loadKernelCodeObjectFromELF (the debug/elf plumbing) is not yet under contract."),
+         "<kernel>.kd symbol's section-relative offset for any section address and symbol order. loadKernelCodeObjectFromELF hands the parsers exactly the bytes of the kernel's own symbol in the text section (site obligations), with the debug/elf file assumed well formed at the point where its symbol table exists."),
    note=(TB + "Assumed (preconditions = well-formed file): section indices valid, a symbol lies inside its section, at most one 64-byte <kernel>.kd symbol, register-count symbols <= 4096; "
          "strings are uninterpreted with cancellative concatenation; debug/elf itself is outside the verified code (extern), and the well-formedness of the file is an assume-at at the point where the symbol table exists (listed in the evidence)."),
    design="5 (C13)", technique="deductive verification: WP-style VC generation over go/ssa + SMT (byte-layout contracts, loop invariants, intermediate assertion)"),
@@ -152,7 +154,8 @@ claimed = {
 
  "C20": dict(
    text=("Work-conservation steps of the trace-driven model: the NVIDIA driver takes a kernel off the undispatched list and a device off the free list exactly when the port accepted the dispatch message (both lists lose their head, order kept), "
-         "and a finished kernel returns the device named by the message, once, decrementing the unfinished count; the SM does the same for warps and sub-cores. Trace parsing, the GPU/sub-core levels and termination are not under contract."),
+         "and a finished kernel returns the device named by the message, once, decrementing the unfinished count; the SM does the same for warps and sub-cores. The memory part of a trace line is parsed completely: a base+delta instruction receives exactly one delta per field between the base address and the trailing immediate, in order, and the immediate comes from the last field. "
+         "The rest of the trace parser, the GPU/sub-core levels and termination are not under contract."),
    note=(TB + "akita ports/components and the logging library are external. Termination and exactly-once over whole runs need an argument over message interleavings that this technique does not mechanise."),
    design="5 (C20)", technique="deductive verification: WP-style VC generation over go/ssa + SMT (pre/postconditions of the step functions)"),
 
